@@ -9,7 +9,21 @@ out = tempfile.mktemp(suffix='.xml', dir='/var/tmp')
 cmd = base['cmd'].replace('cd /repo', 'cd ' + repo).replace('<file>', out)
 env = dict(os.environ)
 env.pop('PYTHONPATH', None)
-p = subprocess.run(cmd, shell=True, capture_output=True, text=True, env=env)
+# the suite contains randomised (hypothesis) tests: a failing random example would be stored in <repo>/.hypothesis/examples and
+# replayed on every later run, turning a one-off random find into a permanent failure of the pinned baseline.  The example
+# database is therefore put back exactly as it was found.
+import shutil
+hyp = os.path.join(repo, '.hypothesis', 'examples')
+keep = tempfile.mkdtemp(dir='/var/tmp') if os.path.isdir(hyp) else None
+if keep:
+    shutil.copytree(hyp, os.path.join(keep, 'examples'))
+try:
+    p = subprocess.run(cmd, shell=True, capture_output=True, text=True, env=env)
+finally:
+    if keep:
+        shutil.rmtree(hyp, ignore_errors=True)
+        shutil.copytree(os.path.join(keep, 'examples'), hyp)
+        shutil.rmtree(keep, ignore_errors=True)
 tree = ET.parse(out)
 os.unlink(out)
 passed = set()
